@@ -44,7 +44,8 @@ def entries_for(v):
         out.append("metadata_key")
     if v["vt"] == "str" or (v["vt"] == "list" and v["items"] and all(x["vt"] == "str" for x in v["items"])):
         out += ["columns_pandas", "columns_awkward", "columns_parquet", "columns_ttree"]
-    if v["vt"] == "str":
+    if v["vt"] in ("str", "bytes", "int", "bigint", "float", "bool", "none"):
+        # file and tree names are declared str; whatever scalar is handed over must still arrive as it is
         out += ["filename_parquet", "filename_ttree", "treename"]
     return out
 
